@@ -570,7 +570,11 @@ func init() {
 					return true
 				}
 			}
-			m := fr.w.prog.LookupMethod(err.t, nil, "Unwrap")
+			sel := fr.w.prog.MethodSets.MethodSet(err.t).Lookup(nil, "Unwrap")
+			if sel == nil {
+				return false
+			}
+			m := fr.w.prog.MethodValue(sel)
 			if m == nil || m.Signature.Results().Len() != 1 {
 				return false
 			}
